@@ -76,7 +76,7 @@ extern ssize_t mpt_logfile_push(MPT_STRUCT(logfile) *log, size_t len, const void
 		}
 		/* direct data write */
 		if (!(log->mode & 0x80)) {
-			return fwrite(src, len, 1, fd);
+			return fwrite(src, 1, len, fd);
 		}
 		/* detect delimiters */
 		while (len--) {
